@@ -46,7 +46,7 @@ MANIFEST_TEXT["C02"] = {
     "technique": "TLA+ language-layer semantics (TauLang) evaluated by TLC on traces recorded from the engine",
 }
 
-DEV_COND = '{"andor_unchecked"}'
+DEV_COND = '{}'
 PROPS["C05"] = {
     "title": "Condition grammar: fixed precedence, associativity and parentheses",
     "models": lambda tier: [
@@ -77,9 +77,9 @@ PROPS["C03"] = {
          "constants": {"MaxLen": q(tier, 3, 4), "EmitRejLen": q(tier, 3, 4), "Wide": "TRUE", "Dev": DEV_COND},
          "invariants": ["PrattIsRef", "RoundTrip", "Emit"],
          "forms": ["accepted", "rejected"], "workers": 8,
-         "plan": {"tri": False, "sws": "ALL", "adv": True, "validate": True}},
+         "plan": {"tri": False, "sws": q(tier, "SOME", "ALL"), "adv": q(tier, 6, 16), "validate": True}},
     ],
-    "gens": lambda tier: [{"topic": "adv", "n": q(tier, 150, 3000)}],
+    "gens": lambda tier: [{"topic": "adv", "n": q(tier, 120, 3000)}],
     "rules": ["load_outcome", "load_panic", "opt_panic", "match_panic", "validate_panic", "ser_panic"],
     "chunk": 100,
 }
@@ -120,3 +120,18 @@ PROPS["C11"] = {
     "chunk": 300,
 }
 MANIFEST_TEXT["C11"] = {"level": "todo", "note": "todo", "technique": "TLA+ life-cycle spec: one denotation per (rule, abstract document); TLC trace validation over 8 representations"}
+
+PROPS["C04"] = {
+    "title": "Loading arbitrary text returns a rule or an error, never a panic",
+    "models": lambda tier: [
+        {"module": "MC_Tok", "constants": {"MaxLen": q(tier, 3, 4)},
+         "invariants": ["InRange", "AgreesWithScan"], "props": ["Progress", "Terminates"],
+         "no_cases": True, "workers": 8},
+        {"module": "MC_Ident", "constants": {"MaxLen": q(tier, 3, 4), "Dev": "{}", "IcBuild": "FALSE"},
+         "invariants": ["NoPanic", "WriteRead", "Emit"], "forms": ["ok", "err", "unk"], "workers": 8},
+    ],
+    "gens": lambda tier: [{"topic": "fuzz", "n": q(tier, 3000, 60000)}],
+    "rules": ["load_panic", "ident_panic"],
+    "chunk": 3000,
+}
+MANIFEST_TEXT["C04"] = {"level": "todo", "note": "todo", "technique": "TLA+ step-machine models of the tokeniser and of pattern parsing (progress, index safety, termination) checked by TLC; exhaustive short strings and seeded fuzz replayed; traces validated by TLC"}
